@@ -66,7 +66,10 @@ def ellipse(v00, v01, v11):
 '''
 
 
-def sym_mat(name, r=3, c=3):
+def sym_mat(name, r=3, c=3, symmetric=False):
+    """symmetric: a covariance matrix - the property quantifies over symmetric matrices, so an implementation may use either triangle"""
+    if symmetric:
+        return Mat([[Rat.sym('%s%d%d' % (name, min(i, j), max(i, j))) for j in range(c)] for i in range(r)], (r, c))
     return Mat([[Rat.sym('%s%d%d' % (name, i, j)) for j in range(c)] for i in range(r)], (r, c))
 
 
@@ -141,7 +144,7 @@ def rotation_rules(repo, rep, orc):
 
 
 def vcv_rules(repo, rep, Rr):
-    V = sym_mat('v')
+    V = sym_mat('v', symmetric=True)
     Vd = [[V.data[i][j] for j in range(3)] for i in range(3)]
     col = sym_mat('c', 3, 1)
     diag = [[col.data[i][0] if i == j else C(0) for j in range(3)] for i in range(3)]
@@ -151,7 +154,7 @@ def vcv_rules(repo, rep, Rr):
         w = where(f, f.node)
         ps = [p.name for p in f.params]
         ev = Evaluator(repo)
-        got = ev.call_function(f, {ps[0]: sym_mat('v'), ps[1]: Rat.sym('lat'), ps[2]: Rat.sym('lon')})
+        got = ev.call_function(f, {ps[0]: sym_mat('v', symmetric=True), ps[1]: Rat.sym('lat'), ps[2]: Rat.sym('lon')})
         want = mat_mul(mat_mul(left, Vd), right)
         compare_matrix(rep, 'R-SIBLING', 'R-SIBLING::geodepy/statistics.py::%s::3x3' % fname, w, got, want, '%s = %s' % (fname, txt))
         ev = Evaluator(repo)
@@ -192,7 +195,7 @@ def ellipse_rules(repo, rep, orc, Rr):
     rep.analysed(f)
     w = where(f, f.node)
     ev = Evaluator(repo)
-    V = sym_mat('v')
+    V = sym_mat('v', symmetric=True)
     got = ev.call_function(f, {f.params[0].name: V})
     # the eigenvalues of the positive semi-definite 2x2 block are >= 0 in exact arithmetic: a clamp max(., 0) under the root is the identity
     # of the exact model (it is there for rounding - and the boundary rule below asks for it)
@@ -237,9 +240,9 @@ def ellipse_rules(repo, rep, orc, Rr):
     wg = where(g, g.node)
     ev = Evaluator(repo)
     ps = [p.name for p in g.params]
-    A, B, Cc = sym_mat('a'), sym_mat('b'), sym_mat('k')
+    A, B, Cc = sym_mat('a', symmetric=True), sym_mat('b', symmetric=True), sym_mat('k')
     got = strip_floor_clamps(ev.call_function(g, {ps[0]: Rat.sym('lat'), ps[1]: Rat.sym('lon'), ps[2]: A, ps[3]: B, ps[4]: Cc}))
-    ref = orc.call('relative', lat=Rat.sym('lat'), lon=Rat.sym('lon'), var1=sym_mat('a'), var2=sym_mat('b'), cov12=sym_mat('k'))
+    ref = orc.call('relative', lat=Rat.sym('lat'), lon=Rat.sym('lon'), var1=sym_mat('a', symmetric=True), var2=sym_mat('b', symmetric=True), cov12=sym_mat('k'))
     want = list(ref.items[:4])
     names = ['semi-major', 'semi-minor', 'orientation', 'up']
     if isinstance(got, Tup) and len(got.items) == 4:
@@ -350,7 +353,8 @@ def run(repo, rep):
     _run(repo, rep)
     common.partial_call_rule(repo, rep, [('geodepy.statistics', 'vcv_local2cart'), ('geodepy.statistics', 'vcv_cart2local'), ('geodepy.statistics', 'error_ellipse'), ('geodepy.statistics', 'relative_error')], 'the covariance matrices')
     # in-place array updates met while evaluating the functions above (element type follows the caller's numbers)
-    common.dtype_rule(repo, rep, [('geodepy.statistics', 'vcv_local2cart'), ('geodepy.statistics', 'vcv_cart2local'), ('geodepy.statistics', 'rotation_matrix'), ('geodepy.statistics', 'error_ellipse'), ('geodepy.statistics', 'relative_error')])
+    common.dtype_rule(repo, rep, [('geodepy.statistics', 'vcv_local2cart'), ('geodepy.statistics', 'vcv_cart2local'), ('geodepy.statistics', 'rotation_matrix'), ('geodepy.statistics', 'error_ellipse'), ('geodepy.statistics', 'relative_error'),
+                                  ('geodepy.geodesy', 'enu2xyz'), ('geodepy.geodesy', 'xyz2enu')], helpers=True)
 
 
 def controls(repo):
